@@ -166,6 +166,10 @@ restart:
  * @param[in] drec
  */
 static void htp_gzip_decompressor_end(htp_decompressor_gzip_t *drec) {
+    // Whatever is left in the output buffer has been handed to the callback
+    // already; make sure it is not sent out again by a later call.
+    drec->stream.next_out = drec->buffer;
+    drec->stream.avail_out = GZIP_BUF_SIZE;
     if (drec->zlib_initialized == HTP_COMPRESSION_LZMA) {
         LzmaDec_Free(&drec->state, &lzma_Alloc);
         drec->zlib_initialized = 0;
